@@ -300,6 +300,9 @@ func (g *Cfg) WrapOf(t *rapid.T, k string, c *Spec) *Spec {
 		n := rapid.IntRange(0, 3).Draw(t, "nkeys")
 		for i := 0; i < n; i++ {
 			s.S = append(s.S, str(t, "key"))
+			if rapid.IntRange(0, 7).Draw(t, "emptykey") == 7 {
+				s.S[i] = "" // an empty telemetry key is a key like any other
+			}
 		}
 		if n >= 2 && rapid.Bool().Draw(t, "descending") {
 			// keys given in descending order (an observer that sorts them in place would show)
